@@ -45,8 +45,73 @@ type c20Scenario struct {
 	keygenLike       bool
 }
 
+// c20Pairs: two invalid parameters at once (construction only): never a panic, never an accepted session.
+func c20Pairs(t *vk.T, rep int) {
+	r := t.Rng
+	ids := fx.IDs(r, rep%3, 3)
+	fm, err := fx.NewFrostMat(r, ids, 1, fx.Opt{})
+	if err != nil {
+		t.Inconclusive("keygen: %v", err)
+		return
+	}
+	fx.InstallPrimeHook()
+	cm := fx.NewCMPMatDealt(ids, 1)
+	msg := r.Bytes(32)
+	badLists := map[string][]party.ID{"empty": {}, "own-missing": ids[1:], "own-duplicated": append([]party.ID{ids[0]}, ids...), "contains-empty-id": append(append([]party.ID{}, ids...), "")}
+	badThr := map[string]int{"-1": -1, "n": 3, "MaxUint32+1": math.MaxUint32 + 1, "MinInt": math.MinInt}
+	badSigners := map[string][]party.ID{"too-few": ids[:1], "without-self": ids[1:], "foreign": {ids[0], ids[1], "zz"}, "duplicated": {ids[0], ids[1], ids[1]}, "nil": nil}
+	badMsgs := map[string][]byte{"nil": nil, "empty": {}}
+	try := func(fn, what string, mk func() (protocol.Handler, error)) {
+		var h protocol.Handler
+		var err error
+		pnk, fr, txt := vk.Guard(func() { h, err = mk() })
+		t.Obs("evaluations", 1)
+		t.Distinct("pair|%s|%s", fn, what)
+		switch {
+		case pnk:
+			t.Violation(fn+"|pair|"+what+"|construction-panic|"+fr, "%s with %s panicked: %s", fn, what, txt)
+		case err == nil && h != nil:
+			t.Violation(fn+"|pair|"+what+"|accepted", "%s with two invalid parameters (%s) was accepted", fn, what)
+		default:
+			t.Obs("refused_at_start", 1)
+		}
+	}
+	for ln, l := range badLists {
+		for tn, th := range badThr {
+			l, th := l, th
+			try("frost.Keygen", "participants="+ln+"+threshold="+tn, func() (protocol.Handler, error) { return protocol.NewMultiHandler(frost.Keygen(group, ids[0], l, th), nil) })
+			try("frost.KeygenTaproot", "participants="+ln+"+threshold="+tn, func() (protocol.Handler, error) { return protocol.NewMultiHandler(frost.KeygenTaproot(ids[0], l, th), nil) })
+			try("cmp.Keygen", "participants="+ln+"+threshold="+tn, func() (protocol.Handler, error) { return protocol.NewMultiHandler(cmp.Keygen(group, ids[0], l, th, nil), nil) })
+		}
+	}
+	for sn, S := range badSigners {
+		for mn, m := range badMsgs {
+			S, m := S, m
+			try("frost.Sign", "signers="+sn+"+message="+mn, func() (protocol.Handler, error) { return protocol.NewMultiHandler(frost.Sign(fm.Cfgs[ids[0]], S, m), nil) })
+			try("cmp.Sign", "signers="+sn+"+message="+mn, func() (protocol.Handler, error) { return protocol.NewMultiHandler(cmp.Sign(cm.Cfgs[ids[0]], S, m, nil), nil) })
+			try("presign.StartPresign(full)", "signers="+sn+"+message="+mn, func() (protocol.Handler, error) {
+				if len(m) == 0 {
+					return nil, fmt.Errorf("an empty message selects the offline variant (not an invalid pair)")
+				}
+				return protocol.NewMultiHandler(presign.StartPresign(cm.Cfgs[ids[0]], S, m, nil), nil)
+			})
+		}
+		S := S
+		try("frost.Sign", "signers="+sn+"+config=nil", func() (protocol.Handler, error) { return protocol.NewMultiHandler(frost.Sign(nil, S, msg), nil) })
+		try("cmp.Sign", "signers="+sn+"+config=nil", func() (protocol.Handler, error) { return protocol.NewMultiHandler(cmp.Sign(nil, S, msg, nil), nil) })
+		try("cmp.Presign", "signers="+sn+"+config=empty", func() (protocol.Handler, error) { return protocol.NewMultiHandler(cmp.Presign(cmp.EmptyConfig(group), S, nil), nil) })
+	}
+	if rep == 0 {
+		t.Sample(map[string]any{"kind": "pairs of invalid parameters", "lists": len(badLists), "thresholds": len(badThr), "signer_sets": len(badSigners)})
+	}
+}
+
 func c20Cases(env vk.Env) []vk.Case {
 	var cs []vk.Case
+	for i := 0; i < env.Pick(1, 6); i++ {
+		i := i
+		cs = append(cs, vk.Case{ID: fmt.Sprintf("pairs/%d", i), Run: func(t *vk.T) { c20Pairs(t, i) }})
+	}
 	for _, fam := range []string{"frost-keygen", "frost-sign", "frost-refresh", "doerner", "cmp-keygen", "cmp-sign", "cmp-presign", "cmp-online", "cmp-refresh"} {
 		reps := env.Pick(1, 4)
 		for i := 0; i < reps; i++ {
